@@ -10,11 +10,14 @@
 """
 
 import json
+import os
 import shutil
 import sys
 from pathlib import Path
 
 HERE = Path(__file__).resolve().parent.parent
+ROUND = os.environ.get('ROUND', 'r4')                 # r4 -> seeded/Cxx-r4-n + refactors/G-Cxx-n ; r5 -> Cxx-r5-n + H-Cxx-n
+GOODTAG = {'r4': 'G', 'r5': 'H'}.get(ROUND, 'G')
 sys.path.insert(0, str(HERE / 'tools'))
 import eval_seeded  # noqa: E402
 import keep_seeded  # noqa: E402
@@ -31,14 +34,14 @@ def main() -> int:
             r = eval_seeded.evaluate(bad)
             valid = r.get('applies') and r.get('demo_clean') == 0 and r.get('demo_patched') not in (0, None) and r.get('suite_ok')
             if valid:
-                dest = HERE / 'seeded' / f'{pid}-r4-{n}'
+                dest = HERE / 'seeded' / f'{pid}-{ROUND}-{n}'
                 dest.mkdir(exist_ok=True)
                 for f in ('patch.diff', 'demo.py', 'notes.md'):
                     if (bad / f).exists():
                         shutil.copy(bad / f, dest / f)
                 meta = {
                     'id': dest.name, 'property': pid,
-                    'origin': 'independent sub-agent given only the property text and a scratch worktree of /repo (round 4: delivered together with a repaired twin, refactors/G-%s-%s)' % (pid, n),
+                    'origin': 'independent sub-agent given only the property text and a scratch worktree of /repo (round %s: delivered together with a repaired twin, refactors/%s-%s-%s)' % (ROUND[1:], GOODTAG, pid, n),
                     'what': keep_seeded.first_line(bad / 'notes.md'), 'needs_to_manifest': keep_seeded.needs_of(bad / 'notes.md'),
                     'confirmed_on_repo_head': keep_seeded.head(),
                     'ran': ['scratch copy of /repo HEAD (git archive) + `git apply patch.diff`',
@@ -76,12 +79,12 @@ def main() -> int:
                 if dc not in (0, None):
                     print(f'REJECTED-GOOD {pid}-{n}: the demo exits {dc} on the good version')
                     continue
-                dest = HERE / 'refactors' / f'G-{pid}-{n}'
+                dest = HERE / 'refactors' / f'{GOODTAG}-{pid}-{n}'
                 dest.mkdir(parents=True, exist_ok=True)
                 shutil.copy(good / 'patch.diff', dest / 'patch.diff')
                 if (good / 'notes.md').exists():
                     shutil.copy(good / 'notes.md', dest / 'notes.md')
-                print(f'KEPT-GOOD G-{pid}-{n}: {tail}; demo={dc}')
+                print(f'KEPT-GOOD {GOODTAG}-{pid}-{n}: {tail}; demo={dc}')
             finally:
                 shutil.rmtree(sc, ignore_errors=True)
         else:
